@@ -11,6 +11,7 @@ import (
 	"strings"
 	"sync"
 
+	"golang.org/x/tools/go/ast/astutil"
 	"golang.org/x/tools/go/packages"
 )
 
@@ -149,6 +150,7 @@ func alphaNormalise(pkgs []*packages.Package) {
 		if !recordNames {
 			canonicalComparisons(p)
 			canonicalIfElse(p)
+			canonicalIncDec(p)
 		}
 		for _, f := range p.Syntax {
 			for _, d := range f.Decls {
@@ -332,5 +334,33 @@ func canonicalIfElse(p *packages.Package) {
 			is.Body, is.Else = eb, is.Body
 			return true
 		})
+	}
+}
+
+// canonicalIncDec reads `x += 1` / `x -= 1` as `x++` / `x--`.
+func canonicalIncDec(p *packages.Package) {
+	info := p.TypesInfo
+	for _, f := range p.Syntax {
+		astutil.Apply(f, func(cur *astutil.Cursor) bool {
+			as, ok := cur.Node().(*ast.AssignStmt)
+			if !ok || len(as.Lhs) != 1 || len(as.Rhs) != 1 || (as.Tok != token.ADD_ASSIGN && as.Tok != token.SUB_ASSIGN) {
+				return true
+			}
+			if v, isC := constInt(info, as.Rhs[0]); !isC || v != 1 {
+				return true
+			}
+			if t := info.TypeOf(as.Lhs[0]); t != nil {
+				if b, isB := t.Underlying().(*types.Basic); !isB || b.Info()&types.IsInteger == 0 {
+					return true
+				}
+			}
+			tok := token.INC
+			if as.Tok == token.SUB_ASSIGN {
+				tok = token.DEC
+			}
+			// only in statement lists (a for-post statement may hold an AssignStmt too; both forms are accepted there)
+			cur.Replace(&ast.IncDecStmt{X: as.Lhs[0], TokPos: as.TokPos, Tok: tok})
+			return true
+		}, nil)
 	}
 }
